@@ -2,11 +2,44 @@ module kbverif
 
 go 1.14
 
+require github.com/kubewharf/kubebrain v0.0.0
+
 require (
-	github.com/kubewharf/kubebrain v0.0.0
+	github.com/dgraph-io/badger v1.6.2
+	github.com/evanphx/json-patch v0.5.2 // indirect
+	github.com/golang/groupcache v0.0.0-20210331224755-41bb18bfe9da // indirect
+	github.com/golang/mock v1.5.0
+	github.com/google/btree v1.0.1 // indirect
+	github.com/google/uuid v1.3.0 // indirect
+	github.com/googleapis/gnostic v0.5.5 // indirect
+	github.com/grpc-ecosystem/go-grpc-middleware v1.3.0 // indirect
+	github.com/grpc-ecosystem/go-grpc-prometheus v1.2.0
+	github.com/huandu/skiplist v1.1.0
+	github.com/kr/text v0.2.0 // indirect
 	github.com/kubewharf/kubebrain-client v0.2.1
+	github.com/niemeyer/pretty v0.0.0-20200227124842-a10e7caefd8e // indirect
+	github.com/pkg/errors v0.9.1
+	github.com/prometheus/client_golang v1.12.1
+	github.com/prometheus/client_model v0.2.0
+	github.com/soheilhy/cmux v0.1.5
+	github.com/spf13/cast v1.3.0
+	github.com/spf13/cobra v1.1.3
+	github.com/spf13/pflag v1.0.5
+	github.com/stretchr/testify v1.7.0
 	github.com/tikv/client-go/v2 v2.0.1
+	go.etcd.io/etcd/api/v3 v3.5.2
+	go.etcd.io/etcd/client/v3 v3.5.2
+	golang.org/x/sync v0.0.0-20210220032951-036812b2e83c
+	golang.org/x/time v0.0.0-20211116232009-f0f3c7e86c11 // indirect
+	google.golang.org/grpc v1.43.0
+	gopkg.in/check.v1 v1.0.0-20200227125254-8fa46927fb4f // indirect
+	gopkg.in/inf.v0 v0.9.1 // indirect
+	k8s.io/api v0.20.4 // indirect
+	k8s.io/apimachinery v0.20.4
+	k8s.io/client-go v0.20.2
+	k8s.io/component-base v0.20.2
 	k8s.io/klog/v2 v2.4.0
+	k8s.io/kube-openapi v0.0.0-00010101000000-000000000000 // indirect
 )
 
 replace github.com/kubewharf/kubebrain => /repo
